@@ -167,6 +167,20 @@ class Check:
         if self.tier not in ("quick", "thorough"):
             self.tier = "quick"
         self.seed = int(os.environ.get("VERIF_SEED", "0") or 0)
+        # replay: every generated input derives from (seed, tier); the recorded run is repeated with the recorded seed and tier and the
+        # recorded violation is looked for among the violations of the repeat (C08 additionally re-runs the recorded input alone)
+        self.replay_rec = None
+        if self.replay:
+            self.replay_path = self.replay
+            try:
+                self.replay_rec = json.load(open(self.replay))
+                self.seed = int(self.replay_rec.get("seed", self.seed))
+                self.tier = self.replay_rec.get("tier", self.tier)
+            except Exception as e:  # noqa
+                print("cannot read replay file %s: %s" % (self.replay, e))
+                sys.exit(2)
+            if prop != "C08":
+                self.replay = None
         self.level = level
         self.violations = []
         self.broken = []  # proof obligations / correspondences that no longer check
@@ -379,7 +393,8 @@ class Check:
         kf_path = os.path.join(VERIF, "known_findings.json")
         known = json.load(open(kf_path)) if os.path.exists(kf_path) else []
         known = [k for k in known if k.get("property") == self.prop and k.get("status") == "known"]
-        os.makedirs(os.path.join(VERIF, "replays"), exist_ok=True)
+        replay_dir = os.path.join(VERIF, "replays", "replayed") if self.replay_rec is not None else os.path.join(VERIF, "replays")
+        os.makedirs(replay_dir, exist_ok=True)
         reported = 0
         known_hit = {}
         lines = []
@@ -408,7 +423,7 @@ class Check:
                     unmatched.append(v)
             for v in unmatched[:3]:
                 n += 1
-                path = os.path.join(VERIF, "replays", "%s_%s_%d.json" % (self.prop, self.tier, n))
+                path = os.path.join(replay_dir, "%s_%s_%d.json" % (self.prop, self.tier, n))
                 rec = {"property": self.prop, "seed": self.seed, "tier": self.tier, "broken": self.broken or None, "no_failing_input_found": False}
                 rec.update(v)
                 json.dump(rec, open(path, "w"), indent=1, default=str)
@@ -416,7 +431,7 @@ class Check:
                 reported += 1
         if self.broken and reported == 0:
             n += 1
-            path = os.path.join(VERIF, "replays", "%s_%s_broken_%d.json" % (self.prop, self.tier, n))
+            path = os.path.join(replay_dir, "%s_%s_broken_%d.json" % (self.prop, self.tier, n))
             rec = {"property": self.prop, "seed": self.seed, "tier": self.tier, "kind": "broken_obligation", "call_site": None,
                    "input": None, "expected": None, "got": None, "oracle": "", "broken": self.broken, "no_failing_input_found": True,
                    "known_findings_matched": sorted(known_hit)}
@@ -452,10 +467,26 @@ class Check:
             cov["exhaustive"] = bool(self.exhaustive)
         ev = {"property_id": self.prop, "tier": self.tier, "seed": self.seed, "level": self.level, "coverage": cov,
               "assumptions": self.assumptions, "wall_s": round(time.time() - self.t0, 2), "violations": reported}
-        os.makedirs(os.path.join(VERIF, "evidence"), exist_ok=True)
-        json.dump(ev, open(os.path.join(VERIF, "evidence", self.prop + ".json"), "w"), indent=1, default=str)
+        if self.replay_rec is None:
+            os.makedirs(os.path.join(VERIF, "evidence"), exist_ok=True)
+            json.dump(ev, open(os.path.join(VERIF, "evidence", self.prop + ".json"), "w"), indent=1, default=str)
         print("%s tier=%s seed=%d obligations=%d/%d evaluations=%d nontrivial=%d violations=%d known=%d wall=%.1fs" % (
             self.prop, self.tier, self.seed, ndis, nobl, self.evaluations, len(self.nontrivial), reported, len(known_hit), time.time() - self.t0))
+        if self.replay_rec is not None:
+            r = self.replay_rec
+            canon = lambda x: json.dumps(x, sort_keys=True, default=str)
+            if r.get("no_failing_input_found"):
+                was = set(canon(b.get("theorem") or b.get("correspondence")) for b in (r.get("broken") or []))
+                now = set(canon(b.get("theorem") or b.get("correspondence")) for b in self.broken)
+                same = bool(was & now)
+                what = "the recorded obligation / correspondence is %s broken" % ("still" if same else "no longer")
+            else:
+                same = any(v["kind"] == r.get("kind") and canon(v.get("input")) == canon(r.get("input")) for v in self.violations)
+                alike = any(v["kind"] == r.get("kind") and v.get("call_site") == r.get("call_site") for v in self.violations)
+                what = "the recorded input %s" % ("fails again in the same way" if same else ("does not fail; other inputs fail in the same way at the same call site" if alike else "does not fail"))
+            print("REPLAY property=%s file=%s reproduced=%s (%s)" % (self.prop, getattr(self, "replay_path", None) or "", "yes" if same else "no", what))
+            sys.stdout.flush()
+            return 1 if same else 0
         sys.stdout.flush()
         return 1 if reported else 0
 
